@@ -42,13 +42,15 @@ Theorem C17_single_addressable_agree :
 Proof. vm_compute. split; reflexivity. Qed.
 Print Assumptions C17_single_addressable_agree.
 
-(* register widths: Binary Ninja architecture, decoder (REG_SIZES), emulator (REGISTER_SIZE), Rust masks *)
+(* register widths: Binary Ninja architecture, decoder (REG_SIZES), emulator (REGISTER_SIZE), Rust masks, and the width each
+   register shows when all-ones is written to the Python register file and read back (probed by the translator on every run) *)
 Theorem C17_register_sizes_agree :
   sizes_agree_on (arch_sizes py_regs_arch) py_reg_sizes_emulator = true /\
   sizes_cover (arch_sizes py_regs_arch) py_reg_sizes_emulator = true /\
   sizes_agree_on py_reg_sizes_opcodes py_reg_sizes_emulator = true /\
   sizes_cover py_reg_sizes_opcodes py_reg_sizes_emulator = true /\
   rust_masks_agree py_pc_mask py_reg_sizes_emulator py_subregs_emulator rs_reg_masks = true /\
+  probed_masks_agree py_probed_masks rs_reg_masks = true /\
   py_pc_mask = 2 ^ 20 - 1 /\
   forallb (fun s => 2 ^ (8 * s) - 1 =? rs_temp_mask) py_temp_sizes = true.
 Proof. vm_compute. repeat split; reflexivity. Qed.
